@@ -16,6 +16,8 @@ OWNED = {"double-delivery", "delivered-after-ack", "duplicated", "phantom-delive
 def holders_case(draw, broker):
     ncons = draw(st.integers(2, 4))
     clients = ["c0"] if broker == "mem" else ["c0", "c1", "c2"]
+    if broker != "mem" and draw(st.integers(0, 2)) == 0:
+        clients = ["c0"]  # every consumer in one process (one broker object): what one holds the other can see in shared tables
     ops = []
     nmsg = 0
 
@@ -38,8 +40,8 @@ def holders_case(draw, broker):
             for c in draw(st.lists(st.integers(0, ncons - 1), min_size=2, max_size=ncons, unique=True)):
                 ops.append({"op": "launch", "c": c})
             ops.append({"op": "collect", "patience": draw(st.sampled_from([0.05, 0.4, 0.8]))})
-        elif r < 12:
-            ops.append({"op": draw(st.sampled_from(["ack", "reject", "reject", "requeue"])), "c": draw(idx), "i": draw(idx)})
+        elif r < 13:
+            ops.append({"op": draw(st.sampled_from(["ack", "reject", "requeue", "requeue"])), "c": draw(idx), "i": draw(idx)})
         elif r < 14:
             burst(draw(st.integers(1, 3)))
         elif r < 15:
@@ -59,6 +61,18 @@ def holders_case(draw, broker):
         for c in range(ncons):
             ops.append({"op": "launch", "c": c})
         ops.append({"op": "collect", "patience": 0.8})
+    if broker != "mem" and draw(st.booleans()):
+        # epilogue: every process goes away without cleanup (connections lost), later a new one drains the queue.  Whatever was
+        # acknowledged must not come back; a delivery left unsettled behind the client's back ("ghost") surfaces here
+        for c in range(3):
+            ops.append({"op": "kill", "c": c})
+        if broker == "redis":
+            ops.append({"op": "advance", "dt": 2 * 86400 + 10.0})
+            ops.append({"op": "maintenance"})
+        ops.append({"op": "start", "q": "qa", "client": "z9", "topics": None, "category": "NORMAL", "max_unacked": None})
+        for _ in range(nmsg + 2):
+            ops.append({"op": "consume", "c": 0, "patience": 0.6})
+            ops.append({"op": "ack", "c": 0, "i": 0})
     case = {"broker": broker, "seed": draw(st.integers(0, 2**16)), "ops": ops}
     if broker != "mem":
         lat = st.lists(st.sampled_from([0.0, 0.001, 0.002, 0.005]), max_size=30)
